@@ -100,7 +100,8 @@ def _random_scenario(rng, digital_rf, root, name):
     if combo & 2:
         limits["duration"] = rng.choice([0, cad, 2 * cad, 5 * cad])
     if combo & 4:
-        limits["size"] = len(chans) * maxsz + rng.randint(0, 3 * maxsz)
+        # at least one largest file per group (the property's assumption), often exactly that
+        limits["size"] = len(chans) * maxsz + rng.choice([0, 0, 0, maxsz // 2, maxsz, rng.randint(0, 3 * maxsz)])
     initial = [(i + 1, 64) for i, f in enumerate(files) if f["kind"] in ("drfprop", "dmdprop", "outside", "stray")]
     hist = []
     on_disk = set()
@@ -110,7 +111,7 @@ def _random_scenario(rng, digital_rf, root, name):
         f = rng.choice(data_ids)
         if r < 0.30:
             # the natural flow: a file appears and is reported (sometimes twice, sometimes never)
-            sz = rng.randint(50, maxsz)
+            sz = rng.choice([maxsz, maxsz, maxsz // 2, rng.randint(50, maxsz)])
             hist.append(dict(a="FsWrite", f=f, sz=sz))
             on_disk.add(f)
             k = rng.choice([0, 1, 1, 1, 2])
@@ -134,11 +135,20 @@ def _random_scenario(rng, digital_rf, root, name):
             hist.append(dict(a="FsDelete", f=f))
             hist.append(dict(a="FsMove", f=tmp_id, g=f))
             hist.append(dict(a="EvMoved", f=tmp_id, g=f))
-        elif r < 0.68:
-            g = rng.choice(data_ids)
-            if g != f:
+        elif r < 0.72:
+            # a tracked file is renamed to another data-file name of the same group and reported as a move
+            same = [g for g in data_ids if g != f and files[g - 1]["ch"] == files[f - 1]["ch"] and g not in on_disk]
+            if f in on_disk and same and rng.random() < 0.8:
+                g = rng.choice(same)
+                hist.append(dict(a="FsMove", f=f, g=g))
+                on_disk.discard(f)
+                on_disk.add(g)
                 hist.append(dict(a="EvMoved", f=f, g=g))
-        elif r < 0.76:
+            else:
+                g = rng.choice(data_ids)
+                if g != f:
+                    hist.append(dict(a="EvMoved", f=f, g=g))
+        elif r < 0.78:
             S = sorted(set(rng.sample(data_ids, min(len(data_ids), rng.randint(1, 4)))))
             hist.append(dict(a="AddBatch", S=S))
         elif r < 0.82:
